@@ -6,6 +6,8 @@ import (
 	"strings"
 )
 
+var unreachableBranches []string
+
 // baseName strips the per-path suffix "~n" of an obligation name.
 func baseName(n string) string {
 	if i := strings.LastIndex(n, "~"); i >= 0 {
@@ -69,7 +71,10 @@ func judge(fr *FuncResult) (failed []*Obligation) {
 		if ob.Info {
 			ob.OK = true
 			if ob.Result != nil && ob.Result.Status == "unsat" {
-				fmt.Fprintf(os.Stderr, "unreachable branch: %s %s (%s)\n", fr.Fn, ob.Name, ob.Pos)
+				unreachableBranches = append(unreachableBranches, shortName(fr.Fn)+" "+strings.TrimPrefix(ob.Name, "edge:"))
+				if os.Getenv("GOVC_EDGE_COVER") != "" {
+					fmt.Fprintf(os.Stderr, "unreachable branch: %s %s (%s)\n", fr.Fn, ob.Name, ob.Pos)
+				}
 			}
 			continue
 		}
